@@ -28,18 +28,18 @@ def downAll (d : Nat) : List Item → List Item
 end
 
 mutual
-/-- the item certainly derives at least one token (its left-most leaf is a token) -/
+/-- the item certainly derives at least one token (it is a token, or a node one of whose parts certainly does) -/
 def lead : Item → Bool
   | .tok _ _ => true
   | .node _ is => leadAll is
   | _ => false
 def leadAll : List Item → Bool
   | [] => false
-  | i :: _ => i.lead
+  | i :: is => i.lead || leadAll is
 end
 
 mutual
-/-- every node below starts with a token, and no optional token / look-ahead restriction concerns `<EOF>` -/
+/-- every node below certainly derives a token, and no optional token / look-ahead restriction concerns `<EOF>` -/
 def solid : Item → Bool
   | .tok _ _ => true
   | .optTok k _ => k != .eof
@@ -162,10 +162,14 @@ theorem checkAll_lead (fl : Flags) : ∀ (is : List Item) (l l' : Tok) (ts rest 
   | i :: is, l, l', ts, rest, hl, h => by
     rw [checkAll_cons] at h
     obtain ⟨l1, ts1, h1, h2⟩ := h
-    simp only [Item.leadAll] at hl
-    have a := check_lead fl i l l1 ts ts1 hl h1
-    have b := checkAll_len h2
-    omega
+    simp only [Item.leadAll, Bool.or_eq_true] at hl
+    rcases hl with hl | hl
+    · have a := check_lead fl i l l1 ts ts1 hl h1
+      have b := checkAll_len h2
+      omega
+    · have a := check_len h1
+      have b := checkAll_lead fl is l1 l' ts1 rest hl h2
+      omega
 end
 
 mutual
